@@ -227,30 +227,59 @@ def r3b_capture_logs_on_every_exit(ctx):
            'log_part() runs whether or not the with-body raised' if wit is None else
            'an enabled capture can leave __exit__ without log_part(): when the part raises, its output is not recorded for it and shows up under a later part',
            witness=None if wit is None else graph.fmt_path(wit, fx.module.relpath), anchor=CAP + '.__exit__')
-    # log_part: seek(_pos); text = read(); _pos = tell(); text stored
+    # log_part: seek(_pos); text = read(); _pos = tell(); text stored.  The three stream operations may live in log_part or in one
+    # helper method it calls (inlining bound 1); the stream may be reached through a local alias of self.cap_stdout.
     fl = ctx.func(CAP + '.log_part')
-    gl = ctx.cfg(fl)
-    rdl = ctx.rd(fl)
     r2 = fl.node.args.args[0].arg
+    host = fl
+    via = None
+    for c in walk_scope(fl.node):
+        if isinstance(c, ast.Call) and isinstance(c.func, ast.Attribute) and is_name(c.func.value, r2):
+            m = ctx.prog.find_method(fl.cls, c.func.attr)
+            if m is not None and any(isinstance(x, ast.Call) and isinstance(x.func, ast.Attribute) and x.func.attr == 'read' for x in ast.walk(m.node)):
+                host, via = m, c
+    gh = ctx.cfg(host)
+    rdh = ctx.rd(host)
+    rh = host.node.args.args[0].arg
+
+    def is_stream(node, e):
+        if is_attr_of(e, rh, 'cap_stdout'):
+            return True
+        if isinstance(e, ast.Name):
+            ds = rdh.at(node, e.id)
+            return bool(ds) and all(d.kind == 'assign' and isinstance(d.value, ast.AST) and is_attr_of(d.value, rh, 'cap_stdout') for d in ds)
+        return False
     seq = []
-    for n in gl.nodes:
+    for n in gh.nodes:
         if n.kind != 'stmt' or n.dup:
             continue
         for c in node_calls(n):
-            if isinstance(c.func, ast.Attribute) and c.func.attr in ('seek', 'read', 'tell') and is_attr_of(c.func.value, r2, 'cap_stdout'):
+            if isinstance(c.func, ast.Attribute) and c.func.attr in ('seek', 'read', 'tell') and is_stream(n, c.func.value):
                 seq.append((c.func.attr, n, c))
     names = [k for (k, _, _) in seq]
     ok_order = names == ['seek', 'read', 'tell']
-    ok_seek = ok_order and len(seq[0][2].args) == 1 and is_attr_of(seq[0][2].args[0], r2, '_pos')
-    ok_tell = ok_order and isinstance(seq[2][1].ast, ast.Assign) and any(is_attr_of(t, r2, '_pos') for t in seq[2][1].ast.targets) and seq[2][1].ast.value is seq[2][2]
-    rep.ob('C01.R3b', ctx.loc(fl, fl.node), 'log_part reads from the saved position and saves the new one', ok_order and ok_seek and ok_tell,
+    ok_seek = ok_order and len(seq[0][2].args) == 1 and is_attr_of(seq[0][2].args[0], rh, '_pos')
+    ok_tell = ok_order and isinstance(seq[2][1].ast, ast.Assign) and any(is_attr_of(t, rh, '_pos') for t in seq[2][1].ast.targets) and seq[2][1].ast.value is seq[2][2]
+    rep.ob('C01.R3b', ctx.loc(host, host.node), 'log_part reads from the saved position and saves the new one', ok_order and ok_seek and ok_tell,
            'seek(self._pos); read(); self._pos = tell()' if ok_order and ok_seek and ok_tell else
            'the moving read position is not maintained (%s): output of one part is lost or attributed to another part' % names, anchor=CAP + '.log_part')
     if ok_order:
+        gl = ctx.cfg(fl)
+        rdl = ctx.rd(fl)
         rn = seq[1][1]
-        tv = rn.ast.targets[0].id if isinstance(rn.ast, ast.Assign) and isinstance(rn.ast.targets[0], ast.Name) and rn.ast.value is seq[1][2] else None
+        read_var = rn.ast.targets[0].id if isinstance(rn.ast, ast.Assign) and isinstance(rn.ast.targets[0], ast.Name) and rn.ast.value is seq[1][2] else None
+        if host is fl:
+            tv, src_node = read_var, rn
+        else:
+            # the helper returns what it read; log_part binds the result of the call
+            rets = [x for x in gh.nodes if x.kind == 'stmt' and isinstance(x.ast, ast.Return) and not x.dup]
+            helper_ok = read_var is not None and bool(rets) and all(is_name(x.ast.value, read_var) and all(d.node is rn for d in rdh.at(x, read_var)) for x in rets)
+            tv, src_node = None, None
+            for n in gl.nodes:
+                if n.kind == 'stmt' and isinstance(n.ast, ast.Assign) and n.ast.value is via and isinstance(n.ast.targets[0], ast.Name) and helper_ok:
+                    tv, src_node = n.ast.targets[0].id, n
         stores = [n for n in gl.nodes if n.kind == 'stmt' and not n.dup and isinstance(n.ast, ast.Assign) and any(is_attr_of(t, r2, 'text') for t in n.ast.targets)]
-        ok_text = tv is not None and len(stores) == 1 and is_name(stores[0].ast.value, tv) and all(d.node is rn for d in rdl.at(stores[0], tv))
+        ok_text = tv is not None and len(stores) == 1 and is_name(stores[0].ast.value, tv) and all(d.node is src_node for d in rdl.at(stores[0], tv))
         rep.ob('C01.R3b', ctx.loc(fl, stores[0].ast if stores else fl.node), 'self.text = <what was just read>', ok_text,
                'the text of the part is exactly the newly read segment' if ok_text else 'self.text is not the segment read by this call', anchor=CAP + '.log_part')
 
@@ -532,29 +561,52 @@ def r7_decorated_statement_starts(ctx):
     KINDS = {'FunctionDef', 'AsyncFunctionDef', 'ClassDef'}
     for k in KINDS:
         need(hasattr(ast, k) and 'decorator_list' in getattr(ast, k)._fields, 'C01.R7: ast.%s has no decorator_list in this Python' % k)
-    sites = [n for n in g.nodes if n.kind == 'stmt' and not n.dup and isinstance(n.ast, ast.Assign) and 'decorator_list[0].lineno' in ast.unparse(n.ast.value)]
-    if not sites:
+    # sites: every read of <node>.decorator_list[0] (statement form or inside a comprehension / conditional expression)
+    sites = []
+    for n in g.nodes:
+        if n.kind not in ('stmt', 'test') or n.dup or not isinstance(n.ast, ast.AST):
+            continue
+        for x in ast.walk(n.ast):
+            if isinstance(x, ast.Subscript) and isinstance(x.value, ast.Attribute) and x.value.attr == 'decorator_list' and isinstance(x.slice, ast.Constant) and x.slice.value == 0:
+                sites.append((n, x))
+    uses_lineno = any(isinstance(x, ast.Attribute) and x.attr == 'lineno' for x in ast.walk(f.node))
+    if not sites or not uses_lineno:
         rep.ob('C01.R7', ctx.loc(f, f.node), 'decorated statements start at their first decorator', False,
                'no statement start is taken from decorator_list[0]: the decorator lines of a definition are attached to the preceding statement', anchor=q)
         return
-    for n in sites:
+    for (n, x) in sites:
         loopf = [fr for fr in n.frames if fr.kind == 'loop']
-        need(loopf, 'C01.R7: decorator adjustment is not inside the loop over statements')
-        entry, cut = graph.region_of_loop(g, loopf[-1].head)
-        d2 = ctx.dom(g, entry, cut)
+        if loopf:
+            entry, cut = graph.region_of_loop(g, loopf[-1].head)
+            d2 = ctx.dom(g, entry, cut)
+        else:
+            d2 = dom
+        facts = list(graph.guard_facts(d2, n)) + graph.short_circuit_facts(n.ast, x)
+        # filters of an enclosing comprehension
+        cur = x
+        while cur is not None and cur is not n.ast:
+            cur = getattr(cur, '_parent', None)
+            if isinstance(cur, (ast.ListComp, ast.GeneratorExp, ast.SetComp)):
+                for gen in cur.generators:
+                    for cond in gen.ifs:
+                        facts += graph.facts_of(cond, True)
         kinds_ok = True
         restr = []
-        for fa in graph.guard_facts(d2, n):
+        for fa in facts:
             e = fa.expr
             if isinstance(e, ast.Call) and is_name(e.func, 'isinstance') and fa.polarity is True and len(e.args) == 2:
-                names = {x.attr if isinstance(x, ast.Attribute) else x.id for x in ast.walk(e.args[1]) if isinstance(x, (ast.Attribute, ast.Name))} - {'ast'}
+                names = {y.attr if isinstance(y, ast.Attribute) else y.id for y in ast.walk(e.args[1]) if isinstance(y, (ast.Attribute, ast.Name))} - {'ast'}
                 if not KINDS <= names:
                     kinds_ok = False
                     restr.append(sorted(KINDS - names))
-        rep.ob('C01.R7', ctx.loc(f, n.ast), ctx.src(n.ast), kinds_ok,
+        rep.ob('C01.R7', ctx.loc(f, x), ctx.src(enclosing_stmt_text(n, x)), kinds_ok,
                'the adjustment applies to every node kind that has a decorator_list (kind-agnostic test, or all of FunctionDef / AsyncFunctionDef / ClassDef)' if kinds_ok else
                'the decorator adjustment is restricted to some node kinds; missing: %s -- the decorators of such a definition become part of the preceding statement '
                '(they run without the definition, and a directive in front of it changes scope)' % restr, anchor=q)
+
+
+def enclosing_stmt_text(n, x):
+    return n.ast
 
 
 # ---------------------------------------------------------------------------
@@ -593,6 +645,12 @@ def r6_contiguous_slices(ctx):
             if r[0] == 'repo' and r[1][0] is slicer and repl_pol(n) is not True:
                 calls.append((n, c))
     rep.floor('C01.R6', 'slice_example calls (default mode)', len(calls), 2)
+
+    def last_of(e):
+        return e.value.id if isinstance(e, ast.Subscript) and isinstance(e.value, ast.Name) and isinstance(e.slice, ast.UnaryOp) and isinstance(e.slice.op, ast.USub) and \
+            isinstance(e.slice.operand, ast.Constant) and e.slice.operand.value == 1 else None
+    if any(c.args and last_of(c.args[0]) for (_, c) in calls):
+        return _r6_cut_list_idiom(ctx, f, g, rd, dom, slicer, calls, repl_pol, last_of)
     names = [c.args[0].id for (_, c) in calls if c.args and isinstance(c.args[0], ast.Name)]
     need(names, 'C01.R6: no slice starts at a local variable')
     a = max(set(names), key=names.count)
@@ -665,7 +723,21 @@ def r6_contiguous_slices(ctx):
         if is_none:
             finals.append((n, c))
             continue
-        need(isinstance(q, ast.Name), 'C01.R6: slice stop is not a local name: %s' % ctx.src(c))
+        if not isinstance(q, ast.Name):
+            # a side-effect free expression: the next slice must start at the textually same expression, with none of its names reassigned in between
+            need(q is not None and not any(isinstance(x, ast.Call) for x in ast.walk(q)), 'C01.R6: slice stop is neither a local name nor a call-free expression: %s' % ctx.src(c))
+            qtxt = ast.unparse(q)
+            sync = [d.node for d in rd.defs_of(a) if isinstance(d.value, ast.AST) and ast.unparse(d.value) == qtxt and d.kind == 'assign']
+            others = [m for m in call_nodes if m is not n]
+            wit = graph.must_pass(n.nsucc(), lambda x: any(x is m for m in others) or x is g.exit, through=sync, efilter=graph.normal_only)
+            qnames = {x.id for x in ast.walk(q) if isinstance(x, ast.Name)}
+            dirty = any(graph.path(n.nsucc(), lambda x, qs=d.node: x is qs, efilter=graph.normal_only, avoid=sync) is not None for nm in qnames for d in rd.defs_of(nm) if d.node is not n and d.kind != 'param')
+            ok = wit is None and not dirty
+            rep.ob('C01.R6', ctx.loc(f, c), ctx.src(c) + ' then %s = %s' % (a, qtxt), ok,
+                   'the next slice starts where this one stopped' if ok else
+                   'after this slice the running start is not set to its stop before the next slice: lines are duplicated or skipped',
+                   witness=None if wit is None else graph.fmt_path(wit, f.module.relpath), anchor=CHUNK)
+            continue
         sync = [d.node for d in rd.defs_of(a) if is_name(d.value, q.id) and d.kind == 'assign']
         others = [m for m in call_nodes if m is not n]
         wit = graph.must_pass(n.nsucc(), lambda x: any(x is m for m in others) or x is g.exit, through=sync, efilter=graph.normal_only)
@@ -693,9 +765,81 @@ def r6_contiguous_slices(ctx):
         if d.kind == 'iter' or repl_pol(d.node) is True:
             continue
         v = d.value
-        legal = (isinstance(v, ast.Constant) and v.value == 0) or isinstance(v, ast.Name)
+        stops = {ast.unparse(c.args[1]) for (_, c) in calls if len(c.args) > 1}
+        legal = (isinstance(v, ast.Constant) and v.value == 0) or isinstance(v, ast.Name) or (isinstance(v, ast.AST) and ast.unparse(v) in stops)
         rep.ob('C01.R6', ctx.loc(f, d.node.ast), ctx.src(d.node.ast), legal,
                'running start set to 0 or to the stop of a slice' if legal else 'the running start is computed (%s): contiguity of the parts is no longer structural' % ctx.src(v), nontrivial=False, anchor=CHUNK)
+    rep.note('repl_mode', 'simulate_repl=True branch is not decided (its first slice starts at ps1_linenos[0], a value-level fact)')
+
+
+def _r6_cut_list_idiom(ctx, f, g, rd, dom, slicer, calls, repl_pol, last_of):
+    """second recognised idiom: one list X of cut points; `for a, b in zip(X, X[1:])` hands out [a:b) for each consecutive pair and one final open-ended
+    slice starts at X[-1].  Consecutive pairs of one list tile [X[0], X[-1]) by construction and the final slice continues at X[-1]; what remains to be
+    checked is that nothing else slices, that X is not changed between the loop and the final slice, and that (default mode) X starts with 0."""
+    rep = ctx.rep
+    finals = [(n, c) for (n, c) in calls if c.args and last_of(c.args[0])]
+    X = last_of(finals[0][1].args[0])
+    call_nodes = [n for (n, _) in calls]
+    heads = []
+    for (n, c) in calls:
+        for fr in n.frames:
+            if fr.kind == 'loop' and fr.head not in heads:
+                heads.append(fr.head)
+    ok_shape = len(finals) == 1 and len(heads) == 1
+    rep.ob('C01.R6', ctx.loc(f, finals[0][1]), 'cut list `%s`: one pair loop and one final slice' % X, ok_shape,
+           'all parts are cut at the points of one list' if ok_shape else '%d final slice(s), %d slicing loop(s)' % (len(finals), len(heads)), anchor=CHUNK)
+    if not ok_shape:
+        return
+    head = heads[0]
+    it, tg = head.ast.iter, head.ast.target
+    ok_zip = isinstance(it, ast.Call) and is_name(it.func, 'zip') and len(it.args) == 2 and is_name(it.args[0], X) and isinstance(it.args[1], ast.Subscript) and is_name(it.args[1].value, X) and \
+        isinstance(it.args[1].slice, ast.Slice) and isinstance(it.args[1].slice.lower, ast.Constant) and it.args[1].slice.lower.value == 1 and it.args[1].slice.upper is None and \
+        it.args[1].slice.step is None and isinstance(tg, ast.Tuple) and len(tg.elts) == 2 and all(isinstance(e, ast.Name) for e in tg.elts)
+    rep.ob('C01.R6', ctx.loc(f, head.ast), 'pairs are consecutive elements: ' + ctx.src(it), ok_zip,
+           'zip(X, X[1:])' if ok_zip else 'the loop does not run over consecutive pairs of the cut list', anchor=CHUNK)
+    if not ok_zip:
+        return
+    la, lb = tg.elts[0].id, tg.elts[1].id
+    entry, cut = graph.region_of_loop(g, head)
+    in_loop = [(n, c) for (n, c) in calls if graph.in_loop_body(n, head.ast)]
+    res = graph.count_events(entry, lambda x: any(x is n for (n, _) in in_loop), lambda x: x is head, efilter=graph.normal_only)
+    (_, lo, hi, _, _) = next(iter(res.values())) if res else (None, 0, 0, None, None)
+    args_ok = all(len(c.args) >= 2 and is_name(c.args[0], la) and is_name(c.args[1], lb) for (_, c) in in_loop)
+    stores = [d for d in rd.defs_of(la) + rd.defs_of(lb) if graph.in_loop_body(d.node, head.ast) and d.kind != 'iter']
+    ok = (lo, hi) == (1, 1) and args_ok and not stores
+    rep.ob('C01.R6', ctx.loc(f, head.ast), 'one slice [%s:%s] per pair' % (la, lb), ok,
+           'each consecutive pair yields exactly one slice with exactly these bounds' if ok else 'pairs are sliced %d..%d times / with other bounds / the bounds are reassigned in the loop' % (lo, hi), anchor=CHUNK)
+    other = [(n, c) for (n, c) in calls if (n, c) not in in_loop and (n, c) not in finals]
+    rep.ob('C01.R6', ctx.loc(f, other[0][1] if other else f.node), 'no slice outside the pair loop and the final slice', not other, '%d other slice call(s)' % len(other), nontrivial=False, anchor=CHUNK)
+    # the final slice: open ended, after the loop on every path, X unchanged in between
+    fn, fc = finals[0]
+    q = fc.args[1] if len(fc.args) > 1 else None
+    open_ended = isinstance(q, ast.Constant) and q.value is None
+    wit = graph.must_pass([g.entry], lambda x: x is g.exit, through=[fn], efilter=graph.normal_only)
+    done = [b for b in head.nsucc() if b.kind == 'branch' and b.attrs['polarity'] == 'done']
+    muts = [n for n in g.nodes if not n.dup and n.kind == 'stmt' and (any(isinstance(c.func, ast.Attribute) and is_name(c.func.value, X) and c.func.attr in ('append', 'extend', 'insert', 'pop', 'remove', 'sort', 'reverse', 'clear')
+                                                                            for c in node_calls(n)) or any(d.node is n for d in rd.defs_of(X)))]
+    changed = any(graph.path(done, lambda x, m=m: x is m, efilter=graph.normal_only, stop=[fn]) is not None for m in muts)
+    after_loop = graph.path([fn], lambda x: x is head, efilter=graph.normal_only) is None
+    ok = open_ended and wit is None and not changed and after_loop
+    rep.ob('C01.R6', ctx.loc(f, fc), 'final slice [%s[-1]:None]' % X, ok,
+           'every path ends with one open-ended slice from the last cut point, which is where the last pair stopped' if ok else
+           'the final slice is not the open-ended continuation of the pair loop (open ended %s, on every path %s, list changed between %s)' % (open_ended, wit is None, changed), anchor=CHUNK)
+    # default mode: the list starts with 0
+    for d in rd.at(head, X):
+        if repl_pol(d.node) is True:
+            continue
+        v = d.value
+        ok0 = isinstance(v, ast.AST) and (_is_sorted_set_with_zero(v) or (isinstance(v, ast.List) and v.elts and isinstance(v.elts[0], ast.Constant) and v.elts[0].value == 0))
+        rep.ob('C01.R6', ctx.loc(f, d.node.ast), '%s starts with 0: %s' % (X, ctx.src(d.node.ast)), ok0,
+               'the first cut point is line 0 of the chunk' if ok0 else 'the cut list may not start at 0: leading lines of a chunk can be lost', anchor=CHUNK)
+    # later appends only add a point after the current last one (value-level) -- they must at least be appends at the end
+    for n in g.nodes:
+        if n.dup or n.kind != 'stmt':
+            continue
+        for c in node_calls(n):
+            if isinstance(c.func, ast.Attribute) and is_name(c.func.value, X) and c.func.attr in ('insert', 'pop', 'remove', 'reverse', 'clear'):
+                rep.ob('C01.R6', ctx.loc(f, c), ctx.src(c), False, 'the cut list is modified other than by appending at its end', anchor=CHUNK)
     rep.note('repl_mode', 'simulate_repl=True branch is not decided (its first slice starts at ps1_linenos[0], a value-level fact)')
 
 
